@@ -204,6 +204,7 @@ def run_native(case, env):
             store.commit_write_group = cache.idmap.commit_write_group
         store.lock_read()
         pending = []
+        first_answer = {}
         try:
             if not case["stepwise"]:
                 store._update_sha_map()
@@ -214,6 +215,7 @@ def run_native(case, env):
                     # warmed by its parents only
                     store._update_sha_map(revid)
                 csha = store._lookup_revision_sha1(revid)
+                first_answer[revid] = csha
                 commit = store[csha]
                 check(commit.id == csha and git_sha(commit) == csha,
                       "C35/commit-id-is-not-its-sha1", detail)
@@ -264,8 +266,24 @@ def run_native(case, env):
                 check(list(commit.parents) == parents,
                       "C35/commit-parents-differ",
                       detail + [list(commit.parents), parents])
+            # asked again later, the long-lived store says the same
+            store._update_sha_map()
+            for revid, csha in sorted(first_answer.items()):
+                check(store._lookup_revision_sha1(revid) == csha,
+                      "C35/commit-sha-changes-on-a-later-lookup", [revid])
         finally:
             store.unlock()
+        if case["cache"] == "default":
+            # ... and so does a new store over the persisted cache
+            store2 = BazaarObjectStore(repo, gmap.default_mapping)
+            store2.lock_read()
+            try:
+                for revid, csha in sorted(first_answer.items()):
+                    check(store2._lookup_revision_sha1(revid) == csha,
+                          "C35/commit-sha-differs-in-a-reopened-store",
+                          [revid])
+            finally:
+                store2.unlock()
     lab = _label(spec)
     if lab is not None:
         lab = ("native:" + lab + (":stepwise" if case["stepwise"] else "") +
